@@ -1831,7 +1831,7 @@ fn exec_read(ctx: &mut Ctx, f: &BTreeMap<String, String>, out: &mut Out) {
                 }).collect();
                 filter.insert("topics".into(), json!(js));
             }
-            let (r, e) = run_on(&ctx.main, "eth_getLogs", &json!([Value::Object(filter)]));
+            let (r, e) = run_on(&ctx.main, "eth_getLogs", &json!([Value::Object(filter.clone())]));
             events_all.extend(e);
             // the property speaks about explicit ranges (a number or `latest`); what an omitted bound means is
             // left to the model correspondence (`logsq` line below)
@@ -1845,6 +1845,17 @@ fn exec_read(ctx: &mut Ctx, f: &BTreeMap<String, String>, out: &mut Out) {
                 if let Some(Value::Array(logs)) = &r.ok {
                     check_logs(ctx, a, b, logs, addr.as_deref(), topics.as_ref(), out);
                 }
+            }
+            // C18 (and C01): the replica - after every accepted reorg a fresh instance that was fed only the surviving
+            // history - answers the same filter; it shares no index rows with the instance under test, so rows that a
+            // rollback left behind (and that the block's own lists inherit) show up as a difference
+            if ctx.twin.is_open() {
+                let r2 = ctx.twin.call("eth_getLogs", json!([Value::Object(filter.clone())]));
+                if r.ok.is_some() != r2.ok.is_some() || (r.ok.is_some() && r.ok != r2.ok) {
+                    let n = |v: &Option<Value>| v.as_ref().and_then(|x| x.as_array().map(|a| a.len() as i64)).unwrap_or(-1);
+                    out.oracle_fail(&case, "logs", &format!("eth_getLogs {:?} returned {} logs, the replica built by replaying the same history returns {} (or their contents differ)", f, n(&r.ok), n(&r2.ok)));
+                }
+                out.count("logs-vs-replica");
             }
             answer = if r.is_ok() { "ok".into() } else { "err".into() };
             // model correspondence: every log the receipts hold (chain order), the filter, and what came back
